@@ -265,9 +265,35 @@ var textLevels = []slog.Level{logger.LevelDebug, logger.LevelInfo, logger.LevelW
 var textLevelNames = map[slog.Level]string{0: "DEBUG", 4: "INFO", 8: "WARN", 12: "ERROR", 16: "FATAL"}
 
 // each branch: the Logger call sits on the line after runtime.Caller(0)
-func textLogVia(l *logger.Logger, c *textCase, args []any) (file string, line int) {
+func textLogVia(l *logger.Logger, c *textCase, args []any) (rfile string, rline int) {
 	ctx := context.Background()
+	var file string
+	var line int
+	defer func() { rfile, rline = file, line+1 }() // also when Panic / Panicf unwinds through here
 	switch {
+	case c.Method == 3 && c.Level == logger.LevelError: // Panic: one ERROR record like Error, then panic(msg)
+		defer func() { recover() }()
+		_, file, line, _ = runtime.Caller(0)
+		l.Panic(c.Msg, args...)
+	case c.Method == 4 && c.Level == logger.LevelDebug: // the formatting methods: the message goes through %s once
+		_, file, line, _ = runtime.Caller(0)
+		l.Debugf("%s", c.Msg)
+	case c.Method == 4 && c.Level == logger.LevelInfo:
+		_, file, line, _ = runtime.Caller(0)
+		l.Infof("%s", c.Msg)
+	case c.Method == 4 && c.Level == logger.LevelWarn:
+		_, file, line, _ = runtime.Caller(0)
+		l.Warnf("%s", c.Msg)
+	case c.Method == 4 && c.Level == logger.LevelError && len(c.Msg)%2 == 0:
+		_, file, line, _ = runtime.Caller(0)
+		l.Errorf("%s", c.Msg)
+	case c.Method == 4 && c.Level == logger.LevelError:
+		defer func() { recover() }()
+		_, file, line, _ = runtime.Caller(0)
+		l.Panicf("%s", c.Msg)
+	case c.Method == 4:
+		_, file, line, _ = runtime.Caller(0)
+		l.Logf(ctx, c.Level, "%s", c.Msg)
 	case c.Method == 1 && c.Level == logger.LevelDebug:
 		_, file, line, _ = runtime.Caller(0)
 		l.Debug(c.Msg, args...)
@@ -287,7 +313,7 @@ func textLogVia(l *logger.Logger, c *textCase, args []any) (file string, line in
 		_, file, line, _ = runtime.Caller(0)
 		l.Log(ctx, c.Level, c.Msg, args...)
 	}
-	return file, line + 1
+	return
 }
 
 func textPC() uintptr {
@@ -358,9 +384,12 @@ func (c *textCase) run() (res textRun) {
 		args := textArgs(c.Attrs, c.KV)
 		// what Record.Add / Record.AddAttrs keep: ask slog itself
 		rr := slog.NewRecord(time.Time{}, c.Level, c.Msg, 0)
-		if c.Method == 2 {
+		switch {
+		case c.Method == 4: // formatting methods carry no attributes
+			args = nil
+		case c.Method == 2:
 			rr.AddAttrs(c.Attrs...)
-		} else {
+		default:
 			rr.Add(args...)
 		}
 		rr.Attrs(func(a slog.Attr) bool { res.Attrs = append(res.Attrs, textWalk(a)); return true })
@@ -673,6 +702,7 @@ var textPieces = []string{
 	"\xff", "\xc0", "\xe2\x82", "\x80", "\xed\xa0\x80", "\xf4\x90\x80\x80",
 	"\x00", "\t", "\r", "\x1b", ".", "..", "a", "b", "k", "Z", "0", "-", "_", "/", ":", "\u00e9", "\u4e16", "\U0001F600", "\u00b5",
 	"\u200b", "\u3000", "\u2029", "\u00ad", "'", "`", "\\n", "\\\"", "\"\"", "a=b", "a b",
+	"%", "%20", "100% full", "%s", "%!d(MISSING)", "%%",
 }
 
 func textHostile(r *Rng) string {
@@ -839,7 +869,7 @@ func textRandomCase(r *Rng, s *Stream) *textCase {
 	c := &textCase{
 		AddSource: r.Chance(30),
 		ViaLogger: r.Bool(),
-		Method:    r.Intn(3),
+		Method:    r.Intn(5),
 		KV:        r.Bool(),
 		Level:     Pick(r, textLevels),
 		Msg:       textHostile(r),
